@@ -1578,7 +1578,8 @@ class Message(ABC):
             try:
                 value = getattr(self, field_name)
             except AttributeError:
-                value = self._get_field_default(field_name)
+                # an unselected member of a oneof group is not part of the message
+                continue
             cased_name = casing(field_name).rstrip("_")  # type: ignore
             if meta.proto_type == TYPE_MESSAGE:
                 if isinstance(value, datetime):
@@ -1922,7 +1923,8 @@ class Message(ABC):
             try:
                 value = getattr(self, field_name)
             except AttributeError:
-                value = self._get_field_default(field_name)
+                # an unselected member of a oneof group is not part of the message
+                continue
             cased_name = casing(field_name).rstrip("_")  # type: ignore
             if meta.proto_type == TYPE_MESSAGE:
                 if isinstance(value, datetime):
